@@ -144,7 +144,7 @@ static void dump_multipart(Dump &d, htp_mpartp_t *mp) {
         putn(d, q + ".type", pt->type); putb(d, q + ".name", pt->name); putb(d, q + ".value", pt->value);
         putb(d, q + ".ct", pt->content_type);
         if (pt->file) { putb(d, q + ".filename", pt->file->filename); putn(d, q + ".filelen", pt->file->len);
-                        put(d, q + ".tmpname", pt->file->tmpname ? Bytes(pt->file->tmpname) : Bytes("<null>")); }
+                        put(d, q + ".tmpname", pt->file->tmpname ? Bytes("<set>") : Bytes("<null>")); }   // the name itself comes from mkstemp (simulated: a global counter), not from the traffic
         dump_headers(d, (q + ".hdr").c_str(), pt->headers);
     }
 }
